@@ -47,7 +47,8 @@ def check_options():
 
     if options.args().parser_test:
         # only parse and print
-        exprs = list(nodeio.parse_smtlib(open(options.args().infile).read()))
+        with open(options.args().infile, 'r', newline='') as infile:
+            exprs = list(nodeio.parse_smtlib(infile.read()))
         nodeio.write_smtlib(sys.stdout, exprs)
         sys.exit(0)
 
@@ -126,7 +127,8 @@ def ddsmt_main():
 
         # parse the input
         start_time = time.time()
-        with open(options.args().infile, 'r') as infile:
+        # no newline translation: a CR inside a literal belongs to it
+        with open(options.args().infile, 'r', newline='') as infile:
             exprs = list(nodeio.parse_smtlib(infile.read()))
             nexprs = nodes.count_exprs(exprs)
 
